@@ -13,3 +13,4 @@ import Xrfmv.Props.C14
 #print axioms Xrfmv.Props.C14.root_model_squares_back
 #print axioms Xrfmv.Props.C14.root_squares_back_diag
 #print axioms Xrfmv.Props.C14.centred_per_batch_depends_on_partition
+#print axioms Xrfmv.Props.C14.all_points_used
